@@ -642,7 +642,12 @@ def replay(path):
     key = JWKRegistry.import_key(r["key"])
     if fn.endswith("deserialize_compact"):
         f = r97.deserialize_compact if fn.startswith("rfc7797") else jws.deserialize_compact
-        args = (r["token"].encode("latin1"), key) + ((r["payload_arg"].encode("latin1") if r.get("payload_arg") else None, r["algorithms"]) if fn.startswith("rfc7797") else (r["algorithms"],))
+        parg = r.get("payload_arg")
+        if parg is not None:
+            parg = parg.encode("latin1")
+            if r.get("payload_arg_is_str"):
+                parg = parg.decode("utf-8")
+        args = (r["token"].encode("latin1"), key) + ((parg, r["algorithms"]) if fn.startswith("rfc7797") else (r["algorithms"],))
     else:
         f = r97.deserialize_json if fn.startswith("rfc7797") else jws.deserialize_json
         args = (r["value"], key, r["algorithms"])
